@@ -3,7 +3,7 @@
 import json, os, re, subprocess, sys
 sys.path.insert(0, os.path.dirname(os.path.abspath(__file__)))
 from core import Report, Obl, DISCHARGED, FAILED, UNDETERMINED, VERIF, REPO, load_known
-import step_check, custom_check, kani_run
+import step_check, custom_check, kani_run, native
 
 STEP_TECH = ("contract-based deductive verification: per-form Hoare contracts {pre} real handler {post == spec/isa.rs}, "
              "discharged by Kani/CBMC (loop-free harnesses over the full symbolic input domain, bus/cost seam contracts)")
@@ -36,7 +36,7 @@ def run_kani_both(rep, prop, harness_timeout=1500):
 def check_step_only(prop, tier):
     rep = new_report(prop, tier, STEP_TECH)
     step_check.run_step(rep, prop)
-    return rep.finish()
+    return rep.finish(native.find_witness)
 
 
 def check_step_plus_custom(prop, tier):
@@ -44,7 +44,7 @@ def check_step_plus_custom(prop, tier):
     run_kani_both(rep, prop)
     if prop in ("C05", "C06"):
         rep.assumptions.append("arbitrary nesting depth follows from the one-level lemma and the frame clauses (mem_frame) by induction on depth; the induction step is argued in DESIGN.md 5.5, not mechanised")
-    return rep.finish()
+    return rep.finish(native.find_witness)
 
 
 def check_c07(prop, tier):
@@ -52,7 +52,7 @@ def check_c07(prop, tier):
     run_kani_both(rep, prop)
     rep.assumptions.append("total instruction length = words consumed by the dispatcher (proved here) + operand words consumed by the entry (the `pc` clause of each form's contract under C01-C06)")
     rep.assumptions.append("second-level dispatch inside the entries (mov_b, mov_w, mov_l, add_*, sub_*, bcc, jmp, jsr, bit ops on memory) is exercised by the per-form contracts, which call those entries")
-    return rep.finish()
+    return rep.finish(native.find_witness)
 
 
 def check_c09(prop, tier):
@@ -61,7 +61,7 @@ def check_c09(prop, tier):
     custom_check.run_custom(rep, prop)
     rep.assumptions.append("timer register bytes are additionally written by the owning peripheral: update_timer8_0 writes TCNT0/TCSR0 only (C17 frame obligation)")
     rep.assumptions.append("machine integers are not treated as mathematical: Verus keeps u32/usize with overflow obligations")
-    return rep.finish()
+    return rep.finish(native.find_witness)
 
 
 def scan_call_sites(rep):
@@ -103,10 +103,26 @@ def scan_call_sites(rep):
 def check_c10(prop, tier):
     rep = new_report(prop, tier, VERUS_TECH + " (unit irq: request_interrupt/try_interrupt against a queue view; history lemma delivered++pending==requested by induction) + mechanical call-site scan")
     custom_check.run_verus_unit(rep, prop, "irq", "InterruptController::request_interrupt, Cpu::try_interrupt")
+    # bounded stand-in on the real code (native exhaustive enumeration of short histories); labelled bounded,
+    # it keeps the exactly-once clauses decided when the queue code leaves Verus's subset
+    n, fails = native.c10_bounded()
+    if n is None:
+        rep.inconclusive.append("native bounded C10 enumeration did not build/run: %s" % str(fails)[-300:])
+    else:
+        for c in native.C10_CLAUSES:
+            o = rep.add(Obl("C10/bounded/" + c, "native exhaustive enumeration (bounded)", unit="native_c10_bounded", fn="request_interrupt, try_interrupt, interrupt on a real Cpu"))
+            if c in fails:
+                o.status = FAILED
+                o.detail = "history " + fails[c]
+                o.witness = {"history": fails[c], "legend": "events 0,1,2 = request vector 36,37,39; 3 = instruction boundary with I clear; 4 = boundary with I set"}
+            else:
+                o.status = DISCHARGED
+        rep.bounds.append("C10/bounded/*: all %d histories of 7 events over {request 36|37|39, boundary unmasked, boundary masked} on the real code, natively (BOUNDED, not counted as proved; the unbounded argument is the Verus unit irq)" % n)
+        rep.cmds.append("cargo test --offline native_c10_bounded (RUSTFLAGS=--cfg koge29_verif, KOGE29_C10=1)")
     scan_call_sites(rep)
     rep.assumptions.append("Cpu::interrupt is external_body in the Verus unit; its contract (enters through the vector of the number it is given, never touches the queue) is what the Kani harness c06_interrupt_entry proves of the real body (cross-engine assume/guarantee)")
     rep.assumptions.append("'the program computes the same result as without interrupts' is a corollary of C06's entry;RTE round trip; not separately mechanised")
-    return rep.finish()
+    return rep.finish(native.find_witness)
 
 
 def check_c13(prop, tier):
@@ -115,7 +131,7 @@ def check_c13(prop, tier):
     rep.assumptions.append("whole-run determinism is a corollary: every callee is safe Rust without clock or randomness and the host-time statements are proved non-interfering syntactically; stated, not mechanised")
     rep.assumptions.append("termination is not claimed (guest programs may loop)")
     rep.assumptions.append("cfg(test) configuration: the control-socket block is compiled out (C18 is not applicable to this technique)")
-    return rep.finish()
+    return rep.finish(native.find_witness)
 
 
 def check_custom_only(prop, tier):
@@ -138,7 +154,7 @@ def check_custom_only(prop, tier):
         rep.bounds.append("loop unwinding bound 34 (complete: charge is a u8 and the divisor is at least 8, so at most 33 counts per call; unwinding assertions on)")
     if prop == "C14":
         rep.assumptions.append("the MES convention's GOT-save word at H'FFFD10+4*vector is accepted as part of set_handler's effect")
-    return rep.finish()
+    return rep.finish(native.find_witness)
 
 
 def check_c15(prop, tier):
@@ -149,7 +165,7 @@ def check_c15(prop, tier):
     rep.assumptions.append("overflow/shift checks are the overflow-checking build configuration; panic/bounds/unwrap/division checks hold for both configurations")
     rep.assumptions.append("control-channel lines are parsed inside the socket block of Cpu::run, which is outside this technique (C18 not applicable)")
     rep.assumptions.append("undefined encodings (neither implemented nor named by the manual) are covered only through the dispatcher harness with stubbed targets")
-    return rep.finish()
+    return rep.finish(native.find_witness)
 
 
 CHECKS = {
@@ -178,7 +194,13 @@ def main():
         print("usage: check <ID> quick|thorough | check replay <file>")
         return 2
     if sys.argv[1] == "replay":
-        print(open(sys.argv[2]).read())
+        d = json.load(open(sys.argv[2]))
+        print("obligation:", d.get("obligation"))
+        print("verifier  :", d.get("verifier_output"))
+        if d.get("failing_input"):
+            print(native.replay(d["failing_input"]))
+        else:
+            print("no failing input recorded (no-failing-input-found); see the logs:", d.get("logs"))
         return 0
     prop = sys.argv[1]
     tier = sys.argv[2] if len(sys.argv) > 2 else os.environ.get("VERIF_TIER", "quick")
